@@ -37,6 +37,10 @@ class BroadcastTo(ArrayExpr):
     def chunks(self):
         return self._chunks
 
+    def _requires_grid_preservation(self, dependency):
+        # ``_chunks`` carries the input's block grid along the real dimensions
+        return True
+
     def _layer(self) -> dict:
         x = self.array
         shape = self._shape
